@@ -55,7 +55,33 @@ def run_property(prop: str, tier: str, seed: int) -> int:
         return EXIT_FAULT
 
 
+def self_check() -> int:
+    """Offline setup check: solvers callable, real package importable by the replay interpreter."""
+    import subprocess
+    import z3
+    ok = True
+    s = z3.Solver()
+    x = z3.Real("x")
+    s.add(x * x == 2, x > 0)
+    ok &= str(s.check()) == "sat"
+    for cmd in (["/usr/bin/cvc5", "--version"], ["/usr/bin/z3", "--version"]):
+        try:
+            subprocess.run(cmd, capture_output=True, timeout=30, check=True)
+        except Exception as exc:
+            print(f"self-check: {cmd[0]} not usable ({exc}); only z3 5.1 will be used")
+    r = subprocess.run(["/venv/bin/python", "-c", "import WallGo, sys; sys.stdout.write(WallGo.__file__)"],
+                       capture_output=True, text=True, timeout=300)
+    if r.returncode != 0:
+        print("self-check: /venv/bin/python cannot import WallGo (native replays will be reported as not executable)")
+    source.load_module("thermodynamics")
+    print("self-check", "ok" if ok else "FAILED")
+    return 0 if ok else 3
+
+
 def main(argv=None) -> int:
+    argv = list(sys.argv[1:] if argv is None else argv)
+    if argv and argv[0] == "--self-check":
+        return self_check()
     ap = argparse.ArgumentParser()
     ap.add_argument("prop")
     ap.add_argument("--tier", default=os.environ.get("VERIF_TIER", "quick"), choices=["quick", "thorough"])
